@@ -23,7 +23,7 @@ CHECKS = {
     "C03": ["C03_Error", "C03_Failed", "C03_Cleanup", "C03_AtomicUpgrade", "C03_AtomicInstall"],
     "C06": ["C06_ReadOnly", "C06_EndSame"],
     "C07": ["C07_Refusal", "C07_Stamped", "C07_DeleteNamed"],
-    "C09": ["C09_CreateFresh", "C09_LoserClean", "C09_Quiescent", "C01_KeyIsBody", "C01_NextRevision"],
+    "C09": ["C09_CreateFresh", "C09_LoserClean", "C09_Quiescent", "C01_KeyIsBody", "C01_NextRevision", "C01_OneDeployed"],
     "C12": ["C12_Order", "C12_DeleteBefore", "C12_DeletedByPolicy", "C12_PreHookGate", "C12_PostHookFails",
             "C12_NotInManifest", "C12_Disabled"],
 }
@@ -38,7 +38,8 @@ FAMILY = {
     "C06": dict(mc="MC_Dry", gen="MC_GenDry", quick=260, thorough=2000, drivers=["secret", "memory", "configmap"]),
     "C07": dict(mc="MC_Own", gen="MC_GenOwn", quick=260, thorough=2000, drivers=["secret", "memory", "configmap"]),
     "C09": dict(mc="MC_Conc", gen="MC_GenConc", quick=150, thorough=1500, drivers=["secret", "memory", "configmap"],
-                extra_mc=["MC_ConcDep.cfg"], extra_gen=["MC_GenConcDep.cfg", "MC_GenConc3.cfg"]),
+                extra_mc=["MC_ConcDep.cfg"], extra_mc_thorough=["MC_ConcFault.cfg"],
+                extra_gen=["MC_GenConcDep.cfg", "MC_GenConc3.cfg", "MC_GenConcFault.cfg"]),
     "C12": dict(mc="MC_Hooks", gen="MC_GenHooks", quick=220, thorough=2500, drivers=["secret", "memory", "configmap"],
                 sweep=(4, 40)),
 }
@@ -128,6 +129,20 @@ def kf_triggers(evs):
             # L6: unstructured kinds are patched two-way (old vs new manifest): live state is ignored
             if any(is_custom(o["kind"]) for o in pre["cluster"].values()):
                 tr.append(("KF-L6-unstructured-two-way-merge", b))
+    # L22: the rollback inside a failed upgrade --atomic creates its record while another operation is in flight
+    spans = {}
+    for b, e in ops_of(evs):
+        spans.setdefault(evs[b]["proc"], []).append((b, e))
+    for b, e in ops_of(evs):
+        be = evs[b]
+        if be["op"] == "upgrade" and be["flags"]["atomic"]:
+            creates = [i for i in range(b, e + 1) if evs[i]["ev"] == "call" and evs[i]["proc"] == be["proc"]
+                       and evs[i]["kind"] == "store" and evs[i]["verb"] == "create" and evs[i]["ok"]]
+            if len(creates) >= 2:
+                at = creates[1]
+                for q, sp in spans.items():
+                    if q != be["proc"] and any(b2 < at < e2 for b2, e2 in sp):
+                        tr.append(("KF-L22-atomic-rollback-races-with-upgrade", at))
     return tr
 
 
@@ -136,6 +151,8 @@ KF_RELEVANT = {
     "KF-L2-upgrade-supersede-swallowed": {"C01_OneDeployed", "C01_Success"},
     "KF-L2-rollback-supersede-swallowed": {"C01_OneDeployed", "C01_Success"},
     "KF-L14-hook-create-failure-skips-policy-deletes": {"C12_DeletedByPolicy"},
+    "KF-L22-atomic-rollback-races-with-upgrade": {"C09_Quiescent", "C01_OneDeployed", "C01_Success", "C02_Success",
+                                                  "C03_AtomicUpgrade"},
     "KF-L1-replace-keeps-older-deployed": {"C01_OneDeployed", "C01_Success"},
     "KF-L15-atomic-rollback-ignores-history-max": {"C01_Prune"},
     "KF-L5-obsolete-resource-errors-swallowed": {"C03_Error"},
@@ -145,7 +162,7 @@ KF_RELEVANT = {
     "KF-L6-unstructured-two-way-merge": {"C02_Success", "C03_AtomicUpgrade"},
 }
 # findings whose damage persists in the ledger: later states of the same scenario stay affected
-KF_PERSIST = {"KF-L2-upgrade-supersede-swallowed", "KF-L2-rollback-supersede-swallowed",
+KF_PERSIST = {"KF-L22-atomic-rollback-races-with-upgrade", "KF-L2-upgrade-supersede-swallowed", "KF-L2-rollback-supersede-swallowed",
               "KF-L1-replace-keeps-older-deployed"}
 
 
@@ -340,7 +357,7 @@ def run(pid, tier, seed, replay=None):
         return 1 if res["violations"] else 0
 
     # 2. exhaustive model check of the specification (one or several configurations)
-    cfgs = [None] + list(fam.get("extra_mc", []))
+    cfgs = [None] + list(fam.get("extra_mc", [])) + (list(fam.get("extra_mc_thorough", [])) if tier == "thorough" else [])
     exs = []
     for c in cfgs:
         ex = run_exhaustive(d, fam["mc"], tier, timeout=1500 if tier == "quick" else 5400, cfg=c)
